@@ -26,8 +26,9 @@ INVS = ["ShapeOK", "ObsShapeOK", "StencilExact", "QuotientConsistent", "TaylorCo
         "AggMaxIsMax", "Normalised"]
 
 
-def cfg(*, full, maxd, mod, seed, nparts, part, wide, stencil):
-    s = (f"CONSTANTS FullDepth = {full}\n MaxDepth = {maxd}\n SampleMod = {mod}\n Seed = {seed}\n"
+def cfg(*, full, maxd, mod, seed, nparts, part, wide, stencil, mod3=None):
+    s = (f"CONSTANTS FullDepth = {full}\n MaxDepth = {maxd}\n SampleMod = {mod}\n SampleModDeep = {mod3 or mod}\n"
+         f" Seed = {seed}\n"
          f" NParts = {nparts}\n Part = {part}\n Wide = {'TRUE' if wide else 'FALSE'}\n"
          f" CheckStencil = {'TRUE' if stencil else 'FALSE'}\nSPECIFICATION Spec\n")
     for i in INVS:
@@ -100,9 +101,10 @@ def _part(args):
 
 def run(ck: Check):
     if ck.thorough:
-        # every tree of depth <= 2, all operators over a sample of them (depth 3); then the wide parameter
-        # variants (more constants, frozen inputs, matrices, a 4x4x4 lattice for 3 inputs) to depth 1 + sample
-        plans = [(dict(full=2, maxd=3, mod=401, wide=False), 24), (dict(full=1, maxd=2, mod=11, wide=True), 4)]
+        # every tree of depth <= 1, every operator over half of them (depth 2) and over a sample of those
+        # (depth 3); then the wide parameter variants (more constants, frozen inputs, matrices, a 4x4x4 lattice
+        # for 3 inputs) to depth 1 + sample
+        plans = [(dict(full=1, maxd=3, mod=2, mod3=401, wide=False), 24), (dict(full=1, maxd=2, mod=11, wide=True), 4)]
         nproc, timeout = 8, 1750
     else:
         plans = [(dict(full=1, maxd=2, mod=37, wide=False), 6)]
